@@ -155,7 +155,39 @@ var c13HostilePaths = []string{"", " ", "  ", "\t", "/", "//", "///", "/ /", "/\
 	"/p/x/v1", "/x/a", "/a.js", "/a.html", "/a", "/ab", "/x", "/x/y", "/x/y/z", " /u/1 ", "/u/1/", "/files/a/b", "/é/ü", "/a b", "/{a}", "/[x]"}
 var c13HostileMethods = []string{"GET", "get", "", " ", "HEAD", "OPTIONS", "G/ET", "GET/", "\xff", "PUT"}
 
+// handler-count cases (executor rp.go): group + variadic + later middleware around the limit of 63 and around
+// the int8 / uint8 wrap points
+var c13Counts = []int{0, 1, 30, 61, 62, 63, 64, 65, 100, 126, 127, 128, 129, 191, 192, 255, 256, 257, 300, 318, 319, 400}
+
+func c13LimitCase(r *Rng) Sx {
+	total := c13Counts[r.Intn(len(c13Counts))]
+	a := r.Intn(total + 1)
+	b := a + r.Intn(total-a+1)
+	ids := func(n int) []Sx {
+		out := make([]Sx, n)
+		for k := range out {
+			out[k] = I(1)
+		}
+		return out
+	}
+	if r.Chance(1, 3) { // everything on the route itself
+		a = 0
+	}
+	route := L(A("route"), SL([]string{"GET"}), S("/x"), I(2), LS(ids(b-a)), LS(ids(total-b)), S(""))
+	var stmts []Sx
+	if a > 0 {
+		stmts = append(stmts, L(A("group"), S("/g"), LS(ids(a)), L(route)))
+	} else {
+		stmts = append(stmts, route)
+	}
+	hs := []Sx{L(I(1), L(L(A("next")))), L(I(2), L(ev(20)))}
+	return L(A("rp"), L(), LS(stmts), LS(hs), L())
+}
+
 func c13Gen(r *Rng, tier string, i int) Sx {
+	if i%8 == 7 {
+		return c13LimitCase(r)
+	}
 	g := newRtG(r)
 	var defs []Sx
 	if r.Chance(1, 2) {
@@ -201,8 +233,22 @@ func c13Gen(r *Rng, tier string, i int) Sx {
 	return L(A("rt"), LS(opts), LS(defs), LS(qs))
 }
 
+func c13Exec(c Sx) Sx {
+	if c.Head() == "rp" {
+		o := rpExec(c)
+		if o.Head() == "regpanic" {
+			return L(A("reg"), A("panic"))
+		}
+		return L(A("reg"), A("ok"))
+	}
+	return rtExecFor("C13")(c)
+}
+
 func c13Classify(c, obs Sx) []string {
 	var labs []string
+	if c.Head() == "rp" {
+		return []string{"handler-count-case", "nt:handler-count"}
+	}
 	o := obs.String()
 	if strings.Contains(o, "panic") && strings.Contains(o, "(reg") {
 		nOK := strings.Count(strings.SplitN(o, "(panics", 2)[0], "ok")
@@ -222,7 +268,7 @@ func c13Classify(c, obs Sx) []string {
 func init() {
 	props["C06"] = &Prop{Gen: c06Gen, Exec: rtExecFor("C06"), Classify: rtClassify}
 	props["C07"] = &Prop{Gen: c07Gen, Exec: rtExecFor("C07"), Classify: c07Classify}
-	props["C13"] = &Prop{Gen: c13Gen, Exec: rtExecFor("C13"), Classify: c13Classify}
+	props["C13"] = &Prop{Gen: c13Gen, Exec: c13Exec, Classify: c13Classify}
 	c14rGen = func(r *Rng, tier string, i int) Sx { return c07Gen(r, tier, i) }
 	c14rExec = rtExecFor("C14")
 	c14rClassify = func(c, obs Sx) []string {
